@@ -493,13 +493,13 @@ func (in *Interp) stmt(n *Node) (ret interface{}, has bool) {
 		if def == nil {
 			def = &blockDef{node: n}
 		}
-		in.invoke(n, def.node, def.node.Params, def.node.Ctx, def.node.Content, def.node.HasCont)
+		return in.invoke(n, def.node, def.node.Params, def.node.Ctx, def.node.Content, def.node.HasCont)
 	case "yield":
 		def := in.findBlock(n.Name)
 		if def == nil {
 			in.fail(n, "unknown-block", "yield of unknown block %s", n.Name)
 		}
-		in.invoke(n, def.node, n.Params, n.Ctx, n.Content, n.HasCont)
+		return in.invoke(n, def.node, n.Params, n.Ctx, n.Content, n.HasCont)
 	case "ycontent":
 		c := in.content
 		if c == nil {
@@ -510,8 +510,10 @@ func (in *Interp) stmt(n *Node) (ret interface{}, has bool) {
 		if n.Ctx != nil {
 			in.ctx = in.eval(n, n.Ctx)
 		}
-		in.list(c.nodes)
+		// (a return executed in the content counts like one executed anywhere else in the template)
+		r, h := in.list(c.nodes)
 		in.scope, in.content, in.ctx = savedScope, savedContent, savedCtx
+		return r, h
 	case "include":
 		return in.include(n)
 	case "try":
@@ -522,7 +524,7 @@ func (in *Interp) stmt(n *Node) (ret interface{}, has bool) {
 	return nil, false
 }
 
-func (in *Interp) invoke(site *Node, def *Node, args []Param, ctxExpr *Expr, content []*Node, hasContent bool) {
+func (in *Interp) invoke(site *Node, def *Node, args []Param, ctxExpr *Expr, content []*Node, hasContent bool) (ret interface{}, has bool) {
 	need := len(def.Params) > 0 || len(args) > 0
 	if need {
 		in.push(nil)
@@ -551,8 +553,9 @@ func (in *Interp) invoke(site *Node, def *Node, args []Param, ctxExpr *Expr, con
 	if ctxExpr != nil {
 		in.ctx = in.eval(site, ctxExpr)
 	}
-	in.list(def.Body)
+	ret, has = in.list(def.Body)
 	in.content, in.ctx = savedContent, savedCtx
+	return ret, has
 }
 
 func (in *Interp) include(n *Node) (interface{}, bool) {
